@@ -511,6 +511,7 @@ func runC16(c *Check) {
 	c.ruleClientChannelSenders("R13", clientChannelSenders)
 	c.ruleResponsesAlwaysForwarded("R14")
 	c.ruleRequestTimerAfterSend("R15")
+	c.rulePendingListShrinksOnlyByRemoval("R16")
 	c.ruleRemoveByIdentity("R6", fRequests, c.P.Field("client", "RemoteClient", "removeRequestsChannel"))
 
 	// ---- R6 ownership of the pending list
